@@ -33,8 +33,20 @@ def gen(ctx):
                 body = r.bytes(size)
                 content = body if ct == "data" else tlv(0x30, tlv(0x04, body))
                 add("sign %s %s %s" % (ss, ct, hexs(content)), "sign:%dsigners:%ddistinct:%s:size%s" % (n, distinct, ct, sizeclass(size)))
-    for size in (0, 1, 16, 100):
-        add("sign0 %s" % hexs(r.bytes(size)), "sign0:size%s" % sizeclass(size))
+    for variant in ("empty", "absent", "junk"):
+        for size in (0, 1, 16, 100):
+            add("sign0 %s %s" % (variant, hexs(r.bytes(size))), "sign0:%s:size%s" % (variant, sizeclass(size)))
+    # certificates 7, 8, 9: same issuer, serial numbers 01 / 01 00 / 01 00 00 (byte-prefixes of one another), both orders
+    for ss in ("7.8", "8.7", "7.8.9", "9.8.7", "8.9.7", "7.9", "9.7", "8", "9.1.7"):
+        add("sign %s data %s" % (ss, hexs(r.bytes(20))), "sign:prefix-serials:%s" % ("longer-first" if ss[0] > ss[-1] else "shorter-first"))
+        members = [int(x) for x in ss.split(".")]
+        for op in members:
+            add("env %s %d pub %s" % (ss, op, hexs(r.bytes(20))), "env:prefix-serials:opener-%s" % ("shortest" if op == min(members) else ("longest" if op == max(members) else "middle")))
+        for k in (7, 8, 9):
+            if k not in members:
+                add("env %s %d pub %s" % (ss, k, hexs(r.bytes(20))), "env:prefix-serials:outsider")
+        add("signenv %s %s %d pub 1 %s" % (ss, ss, members[0], hexs(r.bytes(20))), "signenv:prefix-serials")
+        add("signenv %s %s %d pub 1 %s" % (ss, ss, members[-1], hexs(r.bytes(20))), "signenv:prefix-serials")
     # --- enveloped data: 1..5 recipients, every member opens, every key source; non-members
     rsets = ["1", "1.2", "2.1", "1.2.3", "1.2.3.4", "4.1.3.2", "1.2.3.4.5", "2.2", "-"]
     for rs in rsets:
@@ -75,6 +87,35 @@ def gen(ctx):
             for size in (0, 16, 17):
                 sweeps.append(("tamper %s 1 0 %s" % (kind, hexs(r.bytes(size))), "tamper:%s:size%d" % (kind, size)))
     return cases, sweeps
+
+
+# a message of each kind with one DER element removed (lengths recomputed) must not open, unless the element is
+# optional in the format and irrelevant to this opener: the other recipient's RecipientInfo, the CRL set
+OMIT_ALLOWED = {("env", "1.0.1", 1), ("signenv", "1.0", 5), ("signenv", "1.0.1", 1)}
+OMIT_PATHS = ["-", "1", "1.0", "1.0.1", "1.0.1.0", "1.0.1.1", "1.0.2", "1.0.2.0", "1.0.3", "1.0.3.0", "1.0.4", "1.0.4.0", "1.0.6", "1.0.6.0"]
+
+
+def gen_omits(ctx):
+    body = ctx.rng.bytes(21)
+    return [("omit %s %s %d %s" % (kind, p, k, hexs(body)), "omit:%s:%s" % (kind, p))
+            for kind in ("sign", "env", "enc", "signenv") for p in OMIT_PATHS for k in range(8)]
+
+
+def compare_omits(ctx, cases, impl, variant):
+    for (line, cell), a in zip(cases, impl):
+        ctx.cov["evaluations"] += 1
+        ctx.count("op:omit")
+        w = line.split()
+        if a in ("NOCHILD", "ERR surgery"):
+            continue
+        if a == "REFUSED":
+            ctx.cell(cell + ":refused"); continue
+        other_rcpt = w[1] in ("env", "signenv") and w[2].startswith("1.0.1.1")     # inside the RecipientInfo of the other recipient, which comes after the opener's
+        if a == "OPENED-SAME-CONTENT" and ((w[1], w[2], int(w[3])) in OMIT_ALLOWED or other_rcpt):
+            ctx.cell(cell + ":optional-element"); continue
+        ctx.violation("omit:%s:%s:%s-accepted" % (w[1], w[2], w[3]),
+                      "a %s message with DER element %s of node %s removed still opens (%s): a mandatory part is treated as optional [%s]" % (w[1], w[3], w[2], a, variant),
+                      {"kind": "failing-input", "op": line, "impl": a, "expected": "REFUSED", "variant": variant}, True)
 
 
 def legacy_key(line):
@@ -138,7 +179,7 @@ def compare(ctx, cases, impl, model, variant):
             # a wrong symmetric key either fails the padding check or yields other bytes (no integrity in EncryptedData): never the content
             ctx.cell(cell + ":not-the-content")
             continue
-        key, why = (legacy_key(line) if a == leg else (None, None))
+        key, why = (legacy_key(line) if (a == leg and "prefix-serials" not in cell) else (None, None))
         if key is None and op == "sign" and a == "S=ERR" and w[1].count(".") >= 3:
             key, why = "cms_sign:four-signers-exceed-signer_infos-buffer", "cms_sign fails for four signers: the SignerInfos are collected in a 512-byte stack buffer (signer_infos[512])"
         if key is None and op == "signenv" and a == "E=ERR" and w[2].count(".") >= 2 and w[5] == "1" and w[1] != "-":
@@ -166,6 +207,9 @@ def run(ctx):
             impl, err = core.run_lines(exe, lines, shards=shards)
             mod, _ = core.run_lines(model, lines, shards=shards)
             compare(ctx, group, impl, mod, v)
+        omits = gen_omits(ctx)
+        impl, err = core.run_lines(exe, [c[0] for c in omits])
+        compare_omits(ctx, omits, impl, v)
     return finish(ctx)
 
 
@@ -197,6 +241,6 @@ def finish(ctx):
         "zero-signer SignedAndEnvelopedData is not built by the harness (only SignedData), see the theorem C16_no_signer_no_verify for the model",
     ]
     return ctx.finish(level="proof",
-                      rule="cases = signed data over signer sets (1..4, repeated, permuted, none) x content types x sizes 0..64 KiB around the block size; zero-signer SignedData written with the library's field writers; enveloped data over recipient sets 1..5 x every member and an outsider x key object source (generated / DER / PEM / from certificate); encrypted data sizes and wrong key; signed-and-enveloped over signer x recipient sets x CRL present/absent x key source; complete single-bit sweeps of one message of each kind classified by region; a cell = (op, set sizes, source, size class, ok|ERR)",
+                      rule="cases = signed data over signer sets (1..4, repeated, permuted, none) x content types x sizes 0..64 KiB around the block size; zero-signer SignedData written with the library's field writers; enveloped data over recipient sets 1..5 x every member and an outsider x key object source (generated / DER / PEM / from certificate); encrypted data sizes and wrong key; signed-and-enveloped over signer x recipient sets x CRL present/absent x key source; complete single-bit sweeps of one message of each kind classified by region; every single DER element of each message kind removed in turn (well-formed result) must be refused; same-issuer certificates whose serials are byte-prefixes of one another as signers / recipients in both orders; signer information empty / absent / junk; a cell = (op, set sizes, source, size class, ok|ERR)",
                       trusted=core.TRUSTED_COMMON + ["Coq files: Pki/Cms.v (model), Pki/CmsProofs.v, Props/Properties_C16.v",
                                                      "harness/entropy.h scripted getentropy()/time(); region location by memmem / library parsers in props/C16/harness.c"])
